@@ -3,6 +3,7 @@ package rules
 import (
 	"go/ast"
 	"go/token"
+	"sort"
 	"strings"
 
 	"jsverif/internal/core"
@@ -489,4 +490,227 @@ func cmpLoopFunc(c *core.Ctx, R string, d *core.DeclSite, part string, lens []in
 	c.Check(boundBad == "", R, fn+":bound", c.P.Pos(loop.Pos()), "the loop visits every index of the longer/common part", boundBad)
 	c.Check(bodyBad == "", R, fn+":digit", c.P.Pos(loop.Body.Pos()), "an iteration answers by the first differing digit (n before nn), equal digits go on", bodyBad)
 	c.Check(postBad == "", R, fn+":equal", pos, "equal parts compare as 0", postBad)
+}
+
+// c13count: the recogniser counts the digits it reads into the right part, and the exponent moves the point.
+func c13count(c *core.Ctx) {
+	const R = "C13.count"
+	c.Rule(R, "the number recogniser (json/scanner.go) builds the value from three counters: every digit of the integer part adds one to intLen and nothing else, every digit of the fraction adds one to fraLen, the exponent starts (expBegin = index, once) at its first digit or at a minus sign - not at a plus sign -, and only a leading '-' sets negative (each state function tabulated over all 256 bytes); setExp adds the exponent to intLen and subtracts it from fraLen; getNatural (tabulated over the signs of the two counters) writes -intLen zeros before the digits when the point moves left of them, -fraLen zeros behind them (and then sets fraLen to 0) when it moves right of them, and the digits alone otherwise; Scan reads fraLen into Number.exp after getNatural has run")
+	c.Floor(R, 12)
+	type want struct{ digit, minus, plus string }
+	states := map[string]want{
+		"stateOnSearchStart":         {digit: "s.intLen++", minus: "s.negative = true"},
+		"stateMinusFound":            {digit: "s.intLen++"},
+		"stateFirstZeroFound":        {},
+		"stateIntegerNumberFound":    {digit: "s.intLen++"},
+		"statePointFound":            {digit: "s.fraLen++"},
+		"stateFractionalNumberFound": {digit: "s.fraLen++"},
+		"stateExpFound":              {digit: "s.expBegin = s.index", minus: "s.expBegin = s.index"},
+		"stateExpSignFound":          {digit: "s.expBegin = s.index"},
+		"stateExpNumberFound":        {},
+	}
+	var names []string
+	for n := range states {
+		names = append(names, n)
+	}
+	sort.Strings(names)
+	for _, n := range names {
+		fn := "(*json.scanner)." + n
+		d := c.P.FindDecl(fn)
+		if d == nil {
+			c.Unresolved(R, fn)
+			continue
+		}
+		param := ""
+		if len(d.Decl.Type.Params.List) == 1 && len(d.Decl.Type.Params.List[0].Names) == 1 {
+			param = d.Decl.Type.Params.List[0].Names[0].Name
+		}
+		w := states[n]
+		bad := ""
+		for b := int64(0); b < 256 && bad == ""; b++ {
+			for _, begun := range []int64{0, 7} {
+				e := &miniEval{pk: d.Pkg, env: map[string]int64{param: b, "s.expBegin": begun, "s.index": 9}}
+				st, rets := e.run(d.Decl.Body.List)
+				if e.unknown != "" {
+					bad = "undecided: " + e.unknown
+					break
+				}
+				accepted := st == miniReturn && len(rets) == 1 && rets[0] != 0
+				// the counting effects (state transitions and the finished flag are C13.grammar's business)
+				var eff []string
+				for _, x := range e.effects {
+					if strings.HasPrefix(x, "s.stateFn") || strings.HasPrefix(x, "s.finished") {
+						continue
+					}
+					eff = append(eff, x)
+				}
+				exp := ""
+				switch {
+				case b >= '0' && b <= '9':
+					exp = w.digit
+				case b == '-':
+					exp = w.minus
+				case b == '+':
+					exp = w.plus
+				}
+				if exp == "s.expBegin = s.index" && begun != 0 {
+					exp = "" // only the first character of the exponent is recorded
+				}
+				got := strings.Join(eff, "; ")
+				if !accepted {
+					exp = got // a refused byte: whatever happened is discarded with the scanner
+				}
+				if got != exp {
+					bad = core.F("byte %q (exponent begun: %v): effects [%s], expected [%s]", rune(b), begun != 0, got, exp)
+				}
+			}
+		}
+		c.Check(bad == "", R, fn+":count", c.P.Pos(d.Decl.Pos()), n+": counters per byte (256 cells x exponent begun/not)", bad)
+	}
+	// setExp
+	if d := c.P.FindDecl("(*json.scanner).setExp"); d == nil {
+		c.Unresolved(R, "(*json.scanner).setExp")
+	} else {
+		bad := ""
+		for _, begin := range []int64{0, 3} {
+			for _, exp := range []int64{-5, 0, 7} {
+				e := &miniEval{pk: d.Pkg, env: map[string]int64{"s.expBegin": begin, "nil": 0}}
+				e.hook = func(x ast.Expr) (int64, bool) {
+					switch y := x.(type) {
+					case *ast.Ident:
+						if y.Name == "nil" {
+							return 0, true
+						}
+					case *ast.CallExpr:
+						if t := core.TypeOf(d.Pkg, y); t != nil && core.IsErrorType(t) {
+							return 1, true
+						}
+					}
+					return 0, false
+				}
+				// `exp, err := value.SubLow(s.expBegin).ParseInt()`: bind by hand
+				var stmts []ast.Stmt
+				for _, st := range d.Decl.Body.List {
+					if as, ok := st.(*ast.AssignStmt); ok && len(as.Lhs) == 2 && len(as.Rhs) == 1 {
+						if call, ok := as.Rhs[0].(*ast.CallExpr); ok && strings.HasSuffix(core.FullName(core.Callee(d.Pkg, call)), ".ParseInt") {
+							if !strings.Contains(core.ExprStr(call), "SubLow(s.expBegin)") {
+								bad = "the exponent is not parsed from value.SubLow(s.expBegin): " + core.ExprStr(call)
+							}
+							e.env[core.ExprStr(as.Lhs[0])] = exp
+							e.env[core.ExprStr(as.Lhs[1])] = 0
+							continue
+						}
+					}
+					stmts = append(stmts, st)
+				}
+				st, rets := e.run(stmts)
+				got := strings.Join(e.effects, "; ")
+				want := "s.intLen += exp; s.fraLen -= exp"
+				if begin == 0 {
+					want = ""
+				}
+				switch {
+				case bad != "":
+				case e.unknown != "":
+					bad = "undecided: " + e.unknown
+				case st != miniReturn || len(rets) != 1 || rets[0] != 0:
+					bad = core.F("expBegin=%d, exponent %d: does not return nil", begin, exp)
+				case got != want:
+					bad = core.F("expBegin=%d, exponent %d: effects [%s], expected [%s]", begin, exp, got, want)
+				}
+			}
+		}
+		c.Check(bad == "", R, "(*json.scanner).setExp:shift", c.P.Pos(d.Decl.Pos()), "setExp: intLen += exp, fraLen -= exp when there is an exponent, nothing otherwise", bad)
+	}
+	// getNatural
+	if d := c.P.FindDecl("(*json.scanner).getNatural"); d == nil {
+		c.Unresolved(R, "(*json.scanner).getNatural")
+	} else {
+		bad := ""
+		for _, il := range []int64{-2, 0, 3, 9} {
+			for _, fl := range []int64{-4, 0, 5, 9} {
+				if il+fl <= 0 {
+					continue // the two counters add up to the number of digits
+				}
+				var trace []string
+				e := &miniEval{pk: d.Pkg, env: map[string]int64{"s.intLen": il, "s.fraLen": fl}}
+				e.call = func(call *ast.CallExpr) (int64, bool) {
+					switch name := core.FullName(core.Callee(d.Pkg, call)); name {
+					case "json.appendZeros":
+						trace = append(trace, core.F("zeros(%d)", e.expr(call.Args[1])))
+						return 0, true
+					case "json.appendDigits":
+						trace = append(trace, "digits")
+						return 0, true
+					case "bytes.MakeBytes":
+						return 0, true
+					}
+					return 0, false
+				}
+				e.hook = func(x ast.Expr) (int64, bool) {
+					if id, ok := x.(*ast.Ident); ok && id.Name == "natural" {
+						return 0, true
+					}
+					return 0, false
+				}
+				e.run(d.Decl.Body.List)
+				want, wantEff := "digits", ""
+				switch {
+				case il < 0:
+					want = core.F("zeros(%d), digits", -il)
+				case fl < 0:
+					want, wantEff = core.F("digits, zeros(%d)", -fl), "s.fraLen = 0"
+				}
+				got, gotEff := strings.Join(trace, ", "), strings.Join(e.effects, "; ")
+				switch {
+				case e.unknown != "":
+					bad = "undecided: " + e.unknown
+				case got != want || gotEff != wantEff:
+					bad = core.F("intLen=%d, fraLen=%d: writes [%s] with effects [%s], expected [%s] with [%s]", il, fl, got, gotEff, want, wantEff)
+				}
+			}
+		}
+		c.Check(bad == "", R, "(*json.scanner).getNatural:digits", c.P.Pos(d.Decl.Pos()), "getNatural: zeros before / behind the digits by the signs of the counters", bad)
+	}
+	// Scan: exp is read after getNatural
+	if d := c.P.FindDecl("(*json.scanner).Scan"); d == nil {
+		c.Unresolved(R, "(*json.scanner).Scan")
+	} else {
+		ok, detail := false, "no Number literal with nat and exp found"
+		ast.Inspect(d.Decl.Body, func(n ast.Node) bool {
+			cl, isCL := n.(*ast.CompositeLit)
+			if !isCL || core.ExprStr(cl.Type) != "Number" {
+				return true
+			}
+			natAt, expAt, negOK := -1, -1, false
+			for i, el := range cl.Elts {
+				kv, isKV := el.(*ast.KeyValueExpr)
+				if !isKV {
+					continue
+				}
+				switch core.ExprStr(kv.Key) {
+				case "nat":
+					if strings.Contains(core.ExprStr(kv.Value), "getNatural(") {
+						natAt = i
+					}
+				case "exp":
+					if core.ExprStr(kv.Value) == "s.fraLen" {
+						expAt = i
+					}
+				case "neg":
+					negOK = core.ExprStr(kv.Value) == "s.negative"
+				}
+			}
+			switch {
+			case natAt < 0 || expAt < 0 || !negOK:
+				detail = "Number{neg: s.negative, nat: s.getNatural(value), exp: s.fraLen} expected"
+			case expAt < natAt:
+				detail = "exp: s.fraLen is evaluated before getNatural has reset fraLen for numbers whose point moves right of the digits (1.2E+2): the exponent is negative"
+			default:
+				ok = true
+			}
+			return true
+		})
+		c.Check(ok, R, "(*json.scanner).Scan:literal", c.P.Pos(d.Decl.Pos()), "Number{neg, nat: getNatural(...), exp: fraLen} with exp read after getNatural", detail)
+	}
 }
